@@ -323,7 +323,7 @@ def check_block_string_decoded(prog, run, rule_id, lexer):
         raise AnalysisError("%s: no path of _read_block_string returns a BlockString token" % rule_id)
     for st, env in rets:
         if not any(isinstance(c.func, ast.Name) and c.func.id == "parse_block_string" for c in env.get(boolx.CALLS, ())):
-            cond = ", ".join("%s=%s" % kv for kv in sorted(env.items()) if kv[0] not in (boolx.CALLS, boolx.STMTS))
+            cond = ", ".join("%s=%s" % kv for kv in sorted(env.items()) if kv[0] not in boolx.META)
             run.report(r, "%s:Lexer._read_block_string:raw-value" % lexrules.LEXER, m.where(st),
                        "a BlockString token can be built without parse_block_string (when %s): its value keeps the raw indentation, "
                        "blank lines and CR line ends" % (cond or "always"))
